@@ -48,7 +48,7 @@ def check(ctx):
     ctx.ob("MPT.sum-check.test", checks[0] if checks else nc, "raise unless every dimension's chunks sum to the shape (nan = unknown)", ok)
     if checks:
         outer = checks[0]._parent
-        ok = isinstance(outer, ast.If) and unparse(outer.test) == "not allints and shape is not None"
+        ok = isinstance(outer, ast.If) and eqv(outer.test, "not allints and shape is not None")
         ctx.ob("MPT.sum-check.guard", outer if isinstance(outer, ast.If) else nc, "the check is skipped only for the all-integers path or when no shape is given", ok, "" if ok else f"guarded by `{unparse(outer.test) if isinstance(outer, ast.If) else None}`")
         tail = [r for r in returns(nc) if r.lineno > checks[0].lineno]
         early = [r for r in returns(nc) if r.lineno < checks[0].lineno]
@@ -60,7 +60,7 @@ def check(ctx):
     conv = find("chunks = _convert_int_chunk_to_tuple(shape, chunks)", nc)
     ok = len(ai) == 1 and len(conv) == 1 and control_equivalent(nc, ai[0][0], conv[0][0])
     ctx.ob("MPT.sum-check.allints", nc, "allints is computed from the request right before it is expanded with blockdims_from_blockshape", ok)
-    emp = [n for n in walk_no_nested(nc) if isinstance(n, ast.If) and unparse(n.test) == "not c" and any(isinstance(b, ast.Raise) for b in n.body)]
+    emp = [n for n in walk_no_nested(nc) if isinstance(n, ast.If) and eqv(n.test, "not c") and any(isinstance(b, ast.Raise) for b in n.body)]
     ok = len(emp) == 1 and all(g.dominates(g.node_of(emp[0]._parent), g.node_of(r)) for r in returns(nc) if r.lineno > emp[0].lineno)
     ctx.ob("MPT.no-empty-tuple", nc, "empty chunk tuples are rejected before any late return", ok)
     cv = core.func("_convert_int_chunk_to_tuple")
@@ -81,21 +81,21 @@ def check(ctx):
     fills = find("chunks[i] = x.chunks[i]", rf)
     ok = len(fills) == 2 and all(any(unparse(e) in ("i in chunks", "chunks[i] is None") for e, _ in cfg_of(rf).facts(n)) for n, _ in fills) and bool(find("chunks = {validate_axis(c, x.ndim): v for c, v in chunks.items()}", rf))
     ctx.ob("DELEG.rechunk.dict-axes", rf, "axes missing from (or None in) a dict request keep x.chunks[i]; negative axes are normalised", ok)
-    same = [r for r in returns(rf) if unparse(r.value) == "x"]
+    same = [r for r in returns(rf) if eqv(r.value, "x")]
     okx = True
     for r in same:
         facts = {(unparse(e), pol) for e, pol in cfg_of(rf).facts(r)}
         if not (("not balance and chunks == x.chunks", True) in facts or ({("balance", False), ("chunks == x.chunks", True)} <= facts) or any("all((s == 0 for s in x.shape))" in e and pol for e, pol in facts) or any(e == "method == 'tasks'" and pol for e, pol in facts)):
             okx = False
     ctx.ob("DELEG.rechunk.identity-only-when-equal", rf, "x is returned untouched only when the chunks already match (or the array is empty); otherwise after all steps", okx and bool(same))
-    loop = [l for l in walk_no_nested(rf) if isinstance(l, ast.For) and unparse(l.iter) == "steps"]
-    ok = len(loop) == 1 and bool(find("x = _compute_rechunk(x, c)", loop[0])) and unparse(loop[0].target) == "c" and bool(find("steps = plan_rechunk(x.chunks, chunks, x.dtype.itemsize, threshold, block_size_limit)", rf))
+    loop = [l for l in walk_no_nested(rf) if isinstance(l, ast.For) and eqv(l.iter, "steps")]
+    ok = len(loop) == 1 and bool(find("x = _compute_rechunk(x, c)", loop[0])) and eqv(loop[0].target, "c") and bool(find("steps = plan_rechunk(x.chunks, chunks, x.dtype.itemsize, threshold, block_size_limit)", rf))
     ctx.ob("DELEG.rechunk.steps", rf, "every planned step is applied in order: for c in steps: x = _compute_rechunk(x, c)", ok)
     pr = rc.func("plan_rechunk")
-    ok = any(unparse(r.value) == "steps + [new_chunks]" for r in returns(pr)) and all(unparse(r.value) in ("steps + [new_chunks]", "[new_chunks]") for r in returns(pr))
+    ok = any(eqv(r.value, "steps + [new_chunks]") for r in returns(pr)) and all(unparse(r.value) in ("steps + [new_chunks]", "[new_chunks]") for r in returns(pr))
     ctx.ob("DELEG.rechunk.plan-ends-with-request", pr, "plan_rechunk always ends with the requested chunks", ok, "" if ok else "a plan can end before the requested chunking is reached")
     cr = rc.func("_compute_rechunk")
-    ok = any(unparse(r.value) == "Array(graph, merge_name, chunks, meta=x)" for r in returns(cr)) and [a.arg for a in cr.args.args] == ["x", "chunks"]
+    ok = any(eqv(r.value, "Array(graph, merge_name, chunks, meta=x)") for r in returns(cr)) and [a.arg for a in cr.args.args] == ["x", "chunks"]
     ctx.ob("DELEG.rechunk.declared-chunks", cr, "_compute_rechunk(x, chunks) declares exactly `chunks` on its result", ok)
     check_loose(ctx, loose_for("C23"))
     # ---------------- auto_chunks with previous chunks: the growth factor and its tolerance are both split
